@@ -500,4 +500,8 @@ func runC16(r *Run) {
 		})
 		r.atLeast("store-session mutations", n, 2)
 	})
+
+	r.rule("R7", "function-valued Config fields the middleware calls are never nil (E1): set by configDefault on every path, also when no config is passed", func() {
+		configFuncFieldsRule(r, csrfPkg, "csrf")
+	})
 }
